@@ -26,7 +26,7 @@ from sageopt.coniclifts import utilities as util
 from sageopt.coniclifts.constraints.constraint import Constraint
 from sageopt.coniclifts.constraints.elementwise import ElementwiseConstraint
 from sageopt.coniclifts.constraints.set_membership.setmem import SetMembership
-from sageopt.coniclifts.base import ScalarVariable
+from sageopt.coniclifts.base import ScalarVariable, ScalarExpression, Expression
 
 
 #
@@ -223,9 +223,17 @@ def epigraph_substitution(elementwise_constrs):
     # This function is not necessary for linear programs, but it shouldn't dramatically
     # slow down LP compilation time either. By calling this function even when all
     # constraints might be linear, we can skip a potentially very expensive curvature check.
+    #
+    # The substitution is applied to a copy ("linearized_expr") of each constraint's
+    # expression. The constraint's own "expr" keeps its nonlinear atoms, so that the
+    # same Constraint object can be compiled any number of times.
     nonlin_atom_to_scalar_exprs = defaultdict(lambda: list())
     for c in elementwise_constrs:
-        for se in c.expr.flat:
+        lin_expr = np.empty(shape=c.expr.shape, dtype=object)
+        for i, se in enumerate(c.expr.flat):
+            lin_expr[i] = ScalarExpression(se.atoms_to_coeffs, se.offset, verify=False)
+        c.linearized_expr = lin_expr.view(Expression)
+        for se in c.linearized_expr.flat:
             for a in se.atoms_to_coeffs:
                 if not isinstance(a, ScalarVariable):
                     nonlin_atom_to_scalar_exprs[a].append(se)
